@@ -1,6 +1,7 @@
         requires
             dbg_wf(*old(self)),
             old(state).orig == old(self).asm_source.orig,
+            cb_fresh(*old(self), old(state).pc),
         ensures
             dbg_wf(*final(self)), dbg_frame(*old(self), *final(self)),
             final(state).orig == old(state).orig,
@@ -22,6 +23,10 @@
             //      (or the script has ended and the debugger detaches) before anything else happens
             (pre_status(*old(self), *old(state)) is WaitForAction || stepover_reached(pre_status(*old(self), *old(state)), *old(state))) ==>
                 na_consumed(*old(self), *final(self)) || (remaining(old(self).command_reader) == 0 && r is StopDebugger),
+            // ---- C10: right after a resuming command was read, control goes back with the status that command asks for ON THE
+            //      MACHINE AS IT IS NOW (`step out` looks at the instruction under the current PC, not the one seen before goto/reset)
+            r is Proceed && na_consumed(*old(self), *final(self)) ==> (last_cmd(final(self).command_reader) matches Some(c)
+                && is_resuming(c) && final(self).status == after_resume(c, *final(state))),
             // ---- C16: Proceed without consuming a command means the run loop WILL execute an instruction
             r is Proceed && !na_consumed(*old(self), *final(self)) ==> will_execute(old(self).asm_source.orig, *final(state)),
             // ---- never Proceed onto a HALT
